@@ -236,6 +236,7 @@ def run(ctx) -> None:
                                   f"v2version._reset_rollover_fields: `{kw_.arg}` is reset to a value other than its initial value",
                                   f"`{unparse(c_)}` under `{unparse(iff.test)}`; the table says {init_tab[kw_.arg]!r}", loc=rr.loc(c_), witness={"field": kw_.arg, "reset to": kw_.value.value})
     fd = shapes.single_def(rr, "fields")
+    reset_rollover_eval(ctx, "R3")
     ctx.check("R3", fd is not None and unparse(fd) == "_parse_pattern_fields(raw_pattern)", "_reset_rollover_fields: field order from _parse_pattern_fields(raw_pattern)",
               "v2version._reset_rollover_fields: field order not taken from the pattern", "", loc=rr.loc())
     ppf = prog.function("v2version._parse_pattern_fields")
@@ -326,6 +327,17 @@ def run(ctx) -> None:
                         ctx.check("R4", r.equiv(BF.var(fut[0])), f"{fq}: a version from the future keeps its calendar", f"{fq}: the future guard keeps the old calendar under the wrong condition", r.to_dnf(), loc=fn.loc(n.ast))
                     elif v == "old_vinfo._replace(**cur_cinfo._asdict())":
                         ctx.check("R4", r.equiv(~BF.var(fut[0])), f"{fq}: otherwise calendar fields are replaced by the bump calendar", f"{fq}: calendar replaced under the wrong condition", r.to_dnf(), loc=fn.loc(n.ast))
+                    elif isinstance(n.ast.value, ast.IfExp) and {unparse(n.ast.value.body), unparse(n.ast.value.orelse)} == {"old_vinfo", "old_vinfo._replace(**cur_cinfo._asdict())"}:
+                        keeps_when_true = unparse(n.ast.value.body) == "old_vinfo"
+                        t_ = unparse(n.ast.value.test)
+                        ok_ = (t_ == fut[0] and keeps_when_true) or (t_ == f"not {fut[0]}" and not keeps_when_true)
+                        ctx.check("R4", ok_, f"{fq}: a version from the future keeps its calendar, otherwise the bump calendar replaces it (conditional expression)",
+                                  f"{fq}: the future guard keeps the old calendar under the wrong condition", unparse(n.ast)[:90], loc=fn.loc(n.ast))
+                    elif not (isinstance(n.ast.value, ast.Call) and unparse(n.ast.value.func).endswith("_incr_numeric")) and not r.is_false() and eng == "v2version":
+                        # (the legacy engine builds the record with other calls; its value flow is C20's subject)
+                        ctx.bad("R4", f"{fq}: the record that is bumped is neither the parsed version nor the parsed version with today's calendar",
+                                f"`{unparse(n.ast)[:70]}` when {r.to_dnf()}: the parts not addressed by a flag do not come from the current version", loc=fn.loc(n.ast),
+                                what=f"{fq}: cur_vinfo is the parsed version (from the future) or the parsed version with the bump calendar")
         none_filter_rule(ctx, eng, "R4")
 
     # ---------------------------------------------------------------- R5
@@ -403,6 +415,20 @@ def run(ctx) -> None:
     for root in ("cli.test", "cli.update"):
         shapes.check_passthrough(ctx, "R6", root, "cli._validate_release_tag", {vt.params[0]: "tag"})
     validate_flags_eval(ctx, "R6")
+    # ... and it is asked about the flags that were given: each call hands on its caller's own major / minor / patch under the
+    # parameter of the same name, and the pattern that the bump is computed with
+    vf = prog.function("cli._validate_flags")
+    vf_calls = [(f_, c_) for f_ in prog.all_functions() if f_.fq.startswith("cli.") for c_ in shapes.find_calls(prog, f_, vf.fq)]
+    ctx.floor("R6", "calls of cli._validate_flags", len(vf_calls), 1)
+    for f_, c_ in vf_calls:
+        wired = {p_: unparse(call_arg(c_, vf, p_) or ast.Constant(None)) for p_ in vf.params}
+        flags_ok = all(wired.get(p_) == p_ for p_ in ("major", "minor", "patch") if p_ in vf.params)
+        disp = shapes.find_calls(prog, f_, "cli.incr_dispatch")
+        pat_ok = not disp or all(unparse(call_arg(d_, prog.function("cli.incr_dispatch"), "raw_pattern") or ast.Constant(None)) == wired.get(vf.params[0]) for d_ in disp)
+        ctx.check("R6", flags_ok and pat_ok, f"{f_.fq}: _validate_flags(<the bump's pattern>, major, minor, patch)",
+                  f"{f_.fq}: the part flags are validated under another name (or against another pattern) than they are used",
+                  f"`{unparse(c_)}` binds {wired}: a flag the pattern supports is refused, one it does not support goes through", loc=f_.loc(c_),
+                  witness={"command": "bumpver test 2020.3 YYYY.MINOR --minor"})
 
 
 def _fold_cal_gt(ctx, eng: str) -> T.Optional[T.List[str]]:
@@ -501,6 +527,80 @@ def none_filter_rule(ctx, eng: str, rule: str) -> bool:
     return False
 
 
+def reset_rollover_eval(ctx, rule: str) -> None:
+    """v2version._reset_rollover_fields evaluated on abstract version records: the result is the *current* record (the one that
+    carries the increments and the new calendar) in which every field that has an initial value and stands right of a changed
+    field holds that initial value - nothing else differs."""
+    from sa.model import Abstract, CannotFold, EvalError
+    prog = ctx.prog
+    rr = prog.function("v2version._reset_rollover_fields")
+    ctx.visit(rr.fq)
+    init = prog.const("version", "V2_FIELD_INITIAL_VALUES")
+    names = prog.klass("version.V2VersionInfo").fields
+
+    class Rec(Abstract):
+        def __init__(self, d: T.Dict[str, T.Any]):
+            self.__dict__["d"] = dict(d)
+
+        def __getattr__(self, k: str) -> T.Any:
+            try:
+                return self.__dict__["d"][k]
+            except KeyError:
+                raise AttributeError(k)
+
+        def _asdict(self) -> T.Dict[str, T.Any]:
+            return dict(self.d)
+
+        def _replace(self, **kw: T.Any) -> "Rec":
+            if set(kw) - set(self.d):
+                raise ValueError(f"unexpected field names {sorted(set(kw) - set(self.d))}")
+            return Rec(dict(self.d, **kw))
+
+    def ctor(f: T.Any, node: ast.Call) -> Rec:
+        d = dict(zip(names, [f(a) for a in node.args]))
+        for k in node.keywords:
+            if k.arg is None:
+                d.update(f(k.value))
+            else:
+                d[k.arg] = f(k.value)
+        return Rec(d)
+    base = {n_: None for n_ in names}
+    base.update({"year_y": 2020, "quarter": 1, "month": 3, "major": 3, "minor": 4, "patch": 5, "num": 2, "inc0": 7, "inc1": 8, "bid": "1001", "tag": "rc", "pytag": "rc"})
+    cases = [(["year_y", "major", "bid"], {"year_y": 2021, "bid": "1002"}), (["major", "minor", "patch"], {"patch": 6}), (["major", "minor", "patch", "num"], {"major": 4}),
+             (["year_y", "quarter", "patch", "inc0", "inc1"], {"quarter": 2, "inc0": 8, "inc1": 9}), (["inc0", "inc1"], {"inc0": 8, "inc1": 9}), (["major", "bid"], {"bid": "1002"})]
+    wrong: T.List[str] = []
+    n = 0
+    try:
+        for order, changes in cases:
+            old, cur = Rec(base), Rec(dict(base, **changes))
+            env = {rr.params[0]: "PATTERN", rr.params[1]: old, rr.params[2]: cur, "__strict__": True, "__calls__": True,
+                   "__stubs__": {"_parse_pattern_fields": lambda f, node, order=order: list(order), "version.V2VersionInfo": ctor}}
+            try:
+                got, _ys = prog.run_body(rr, env)
+                got_d = got._asdict() if isinstance(got, Rec) else got
+            except EvalError as ex:
+                got_d = f"raises: {ex}"
+            want = dict(cur.d)
+            seen_change = False
+            for fld in order:
+                iv = init.get(fld)
+                if seen_change and iv is not None:
+                    want[fld] = int(iv) if iv.isdigit() else iv
+                elif base[fld] != cur.d[fld]:
+                    seen_change = True
+            n += 1
+            if got_d != want and len(wrong) < 3:
+                diff = {k: (got_d.get(k), v) for k, v in want.items() if got_d.get(k) != v} if isinstance(got_d, dict) else got_d
+                wrong.append(f"pattern fields {order}, changed {changes}: {diff} (got, expected)")
+    except (CannotFold, TypeError, AttributeError, KeyError, ValueError, IndexError) as ex:
+        ctx.observe(f"{rr.fq} not evaluated ({type(ex).__name__}: {str(ex)[:80]})")
+        return
+    ctx.check(rule, not wrong, f"_reset_rollover_fields: the current record with the fields right of a change reset to their initial values, nothing else ({n} cases evaluated)",
+              "v2version._reset_rollover_fields: the result is not the bumped record with the parts right of a change reset",
+              "; ".join(wrong[:2]) + ": the increments / the new calendar are lost, or a part that must restart keeps its value", loc=rr.loc(),
+              witness={"command": "bumpver test 2020.3.1001 YYYY.MAJOR.BUILD --date 2021-02-03", "expected": "2021.0.1002"})
+
+
 def field_order_rule(ctx, rule: str) -> bool:
     """_parse_pattern_fields evaluated on four segment lists: the fields of a pattern in the order of the first occurrence of
     each part, segment by segment, left to right (a part used twice counts where it stands first)."""
@@ -512,7 +612,8 @@ def field_order_rule(ctx, rule: str) -> bool:
     wrong: T.List[str] = []
     n = 0
     try:
-        for segments in (["MAJOR.MINOR.PATCH"], ["vYYYY0M.BUILD", "-TAG"], ["YY.MAJOR.YYYY"], ["YYYY.", "INC0", ".BUILD-YYYY"]):
+        # ... and every part of the table once on its own (the shortest name, `Q`, is the last one a longest-first scan reaches)
+        for segments in [["MAJOR.MINOR.PATCH"], ["vYYYY0M.BUILD", "-TAG"], ["YY.MAJOR.YYYY"], ["YYYY.", "INC0", ".BUILD-YYYY"], ["YYYY.Q.PATCH"]] + [[f"<{p_}>"] for p_ in tab]:
             env = {pf.params[0]: "".join(segments), "__strict__": True,
                    "__stubs__": {"_parse_segtree": lambda f, node: "SEGTREE", "_iter_flat_segtree": lambda f, node, segments=segments: list(segments)}}
             try:
